@@ -125,6 +125,16 @@ def gen_reg(rng, maxops):
         else:
             ops.append("O:%d" % rng.randrange(2))
     ops += ["G:%d" % reg() for _ in range(3)] + ["B"]
+    # every read / write also through a reference or an iterator position, never preceded by a
+    # by-key read of the same attribute (the view must be revalidated on every access path)
+    def alt(o):
+        x = rng.random()
+        if o.startswith("G:") and x < 0.6:
+            return ("GR:" if x < 0.35 else "GI:") + o[2:]
+        if o.startswith("S:") and x < 0.4:
+            return "SR:" + o[2:]
+        return o
+    ops = [alt(o) for o in ops]
     head = ["REG", str(a["machine"]), str(a["cls"]), str(be), hexb(blob),
             ",".join("%s:%d:%d" % d for d in defs)]
     return head, ops, name
@@ -301,7 +311,7 @@ def gen_ctx(rng, maxops):
             r = rng.random()
             if r < 0.6:
                 ops.append("REL:" + hexb(gen_release(rng)))
-                ops.append("VC")
+                ops.append(rng.choice(["VC", "VCR", "VCI"]))
             elif r < 0.75:
                 ops.append("CREL")
             else:
@@ -323,7 +333,7 @@ def gen_ctx(rng, maxops):
         if rng.random() < 0.5:
             ops.append("QR:%s" % os_)
         if rng.random() < 0.4:
-            ops.append("VC")
+            ops.append(rng.choice(["VC", "VCR", "VCI"]))
         if rng.random() < 0.25:
             ops += gen_page_ops(rng, rng.randint(1, 3))
         if rng.random() < 0.2:
